@@ -1043,6 +1043,44 @@ def structured_cases():
                 ts[0]['calc_res']['task_dep'] = ['d']
                 ts[1]['calc_res']['file_dep'] = []
             out.append(named(base_case(ts, ['a'], runner, k), 'calc-backref'))
+    # a cycle that exists ONLY through what a calc task delivered before it FAILED (two actions: the first returns the
+    # dependency values, the second fails; `_process_calc_dep_results` reads task.values whatever the run_status).
+    # With --continue the receiver walks into the cycle (exit 3, Cyclic diagnostic); without, the failure stops the run.
+    for runner, k in (('serial', 0), ('thread', 2), ('thread', 3), ('process', 2)):
+        for shape in ('self', 'ring', 'delivered-calc_dep', 'via-good-calc', 'ring-setup', 'parent'):
+            for cont in (True, False):
+                for outcome, how in (('failed', 'return'), ('error', 'raise')):
+                    if runner == 'process' and (shape not in ('self', 'ring', 'via-good-calc') or how == 'raise'):
+                        continue
+                    if runner == 'thread' and k == 3 and shape not in ('ring', 'parent'):
+                        continue
+                    ts = [_task(x) for x in ('c', 'a', 'b', 'c2', 'p')]
+                    tc, ta, tb, tc2, tp = ts
+                    ta['calc_dep'] = ['c']
+                    tc.update(calc_first=True, outcome=outcome, how=how)
+                    if shape == 'self':
+                        tc['calc_res'] = {'task_dep': ['a'], 'file_dep': [], 'calc_dep': []}
+                    elif shape == 'ring':
+                        tc['calc_res'] = {'task_dep': ['b'], 'file_dep': [], 'calc_dep': []}
+                        tb['task_dep'] = ['a']
+                    elif shape == 'delivered-calc_dep':
+                        tc['calc_res'] = {'task_dep': [], 'file_dep': [], 'calc_dep': ['b']}
+                        tb['task_dep'] = ['a']
+                    elif shape == 'via-good-calc':
+                        tc['calc_res'] = {'task_dep': [], 'file_dep': [], 'calc_dep': ['c2']}
+                        tc2['calc_res'] = {'task_dep': ['a'], 'file_dep': [], 'calc_dep': []}
+                    elif shape == 'ring-setup':
+                        tc['calc_res'] = {'task_dep': ['b'], 'file_dep': [], 'calc_dep': []}
+                        tb['setup'] = ['a']
+                    else:
+                        # the ring b <-> c2 is first reached from `a` through two delivered names (common parent)
+                        tc['calc_res'] = {'task_dep': ['b', 'c2'], 'file_dep': [], 'calc_dep': []}
+                        tb['task_dep'] = ['c2']
+                        tc2['task_dep'] = ['b']
+                    sel = ['p', 'a'] if shape == 'parent' else ['a']
+                    c = named(base_case(ts, sel, runner, k, cont=cont), 'fail-delivery-cycle')
+                    c['fdc'] = shape
+                    out.append(c)
     # a cyclic error raised in the main process while a worker process holds a result bigger than the pipe buffer
     for k in (2, 3):
         for sel, cyc in ((['big1', 'a'], 'self'), (['big1', 'big2', 'a'], 'self'), (['big1', 'a'], 'ring'),
@@ -1261,14 +1299,16 @@ def judge(case, obs, a_run, a_c09, st, shrink_left):
         st.count('scale:python-monitor-only(model-not-asked)')
     elif a_c09 is None or 'error' in a_c09:
         st.count('driver_unavailable')
-    elif 'cycle_without_fail_deliveries' in detail:
-        # a cycle that exists only through what a FAILED calc task delivered: the closure graph of the Lean monitor
-        # (`edgesAt`: executed / up-to-date deliveries) does not have that edge -- Python monitor only, counted
-        st.count('cycle-through-fail-delivery:python-monitor-only')
-        a_c09 = None
     else:
         lean = a_c09.get('monitor') or {}
         st.count('closure:cyclic' if a_c09.get('cycle') else 'closure:acyclic')
+        if 'cycle_without_fail_deliveries' in detail:
+            # a cycle that exists only through what a FAILED-after-start calc task delivered: since wave 5 the closure
+            # graph of the Lean monitor (`edgesAt`, `resAt`) has that edge too -- the Lean monitor judges, the Python one
+            # cross-checks (the cycle lists are compared below); `cycleGood` is the graph of the earlier rounds
+            st.count('cycle-through-fail-delivery:lean-monitor')
+            if not detail['cycle_without_fail_deliveries']:
+                st.count('cycle-through-fail-delivery:ONLY-through-it')
         if a_c09.get('cutShort'):
             st.count('run:cut_short_by_failure')
         m = a_c09.get('model') or {}
@@ -1316,6 +1356,9 @@ def judge(case, obs, a_run, a_c09, st, shrink_left):
         disagree = [k for k in KEYS if py.get(k, True) != lean.get(k, True)]
         if sorted(a_c09.get('cycle') or []) != detail['cycle']:
             disagree.append('cycle(lean=%s,python=%s)' % (a_c09.get('cycle'), detail['cycle']))
+        if 'cycle_without_fail_deliveries' in detail and \
+                sorted(a_c09.get('cycleGood') or []) != detail['cycle_without_fail_deliveries']:
+            disagree.append('cycleGood(lean=%s,python=%s)' % (a_c09.get('cycleGood'), detail['cycle_without_fail_deliveries']))
         if disagree:
             st.divergence(witness_of(case, obs, disagree, py, lean, detail),
                           'python and Lean C09 monitors disagree on %s' % disagree)
@@ -1415,6 +1458,8 @@ def count_c09(st, case, obs):
             st.count('calc_first:%s' % t['outcome'])
         if t.get('n_actions'):
             st.count('multi_action_task')
+    if case.get('fdc'):
+        st.count('fail-delivery-cycle:%s:%s:%s' % (case['fdc'], case['runner'], 'continue' if case.get('cont') else 'stop'))
     if m.get('calcResFail') and any(m['calcResFail']):
         st.count('case_with_calcResFail')
         frun = set(e[1] for e in obs['trace'] if e[0] == 'failure') & set(e[1] for e in obs['trace'] if e[0] == 'start')
